@@ -4,6 +4,8 @@ import json, os, subprocess, sys, tempfile, xml.etree.ElementTree as ET
 repo = sys.argv[1] if len(sys.argv) > 1 else "/repo"
 base = json.load(open("/root/.vp/BASELINE.json"))
 env = {k: v for k, v in os.environ.items() if k != "EQL_VERIF"}
+if repo != "/repo":
+    env["PYTHONPATH"] = repo + "/src"
 with tempfile.TemporaryDirectory() as d:
     x = os.path.join(d, "j.xml")
     subprocess.run(["/venv/bin/python", "-m", "pytest", "-q", "-p", "no:cacheprovider", "--timeout=900",
